@@ -67,7 +67,7 @@ def design(rep, cov, tier):
         if not r.violated:
             raise vlib.Infra("deviation %s not caught by the design invariants (vacuous check?)" % dev)
     # 2-D partition
-    mg, mp = (10, 8) if tier == "quick" else (24, 32)
+    mg, mp = (10, 8) if tier == "quick" else (16, 16)
     # deviation: the serial loop chosen only when there is no executor object (the code before the
     # fix): must be caught by Covers (a caller-supplied executor on a one-processor machine)
     write_cfg(".p2d.cfg", "Spec", ["MaxGrid = 6", "MaxProc = 3", "SharedSet <- BothShared", 'SerialRule = "executor"'],
